@@ -71,3 +71,20 @@ pub assume_specification[ char::encode_utf8 ](c: char, dst: &mut [u8]) -> (r: &m
 	ensures r@ == seq![c];
 // derive-generated Clone of Location (String, Range<usize>, usize, usize) is the identity
 impl Clone for Location { #[verifier::external_body] fn clone(&self) -> (r: Self) ensures r == *self { Location { source_filename: self.source_filename.clone(), span: self.span.clone(), line_number: self.line_number, line_offset: self.line_offset } } }
+// RA11 target: the lines of a str (split at '\n', a trailing '\r' of a line stripped, no final empty line), collected.
+// Assumed: every line is followed by at least its '\n' except possibly the last, so the lines with one terminator
+// character each fit in the source plus one; and a str is at most isize::MAX bytes, hence characters, long.
+pub open spec fn sumlen(lines: Seq<&str>, n: int) -> int
+	decreases n
+{
+	if n <= 0 { 0 } else { sumlen(lines, n - 1) + lines[n - 1]@.len() + 1 }
+}
+#[verifier::external_body]
+pub fn lexa_str_lines<'a>(source: &'a str) -> (r: Vec<&'a str>)
+	ensures sumlen(r@, r@.len() as int) <= source@.len() + 1, source@.len() <= isize::MAX, source@.len() == 0 ==> r@.len() == 0,
+{ source.lines().collect() }
+// RA13 target: byte length of a str
+#[verifier::external_body]
+pub fn lexa_str_len(s: &str) -> (r: usize)
+	ensures r == encode_utf8(s@).len(), (r == 0) == (s@.len() == 0),
+{ s.len() }
